@@ -22,7 +22,7 @@ import ast
 
 from ..repo import AnalysisError, own_nodes
 from .roles import dispatcher_roles
-from .common import DISPATCHER, is_notify, resolve_root
+from .common import DISPATCHER, is_memo_fill, is_notify, resolve_root
 
 MANIFEST = {
     "text": (
@@ -86,6 +86,29 @@ def state_write(ev):
     return None
 
 
+def _unknown_private(ctx, ev, chain):
+    """First private attribute on the written chain that the pinned class owning the write does not have."""
+    from ..baseline_api import BASELINE_ATTRS
+
+    ci = getattr(ev.fi, "cls", None)
+    if ci is None or not any(q.rsplit(".", 1)[-1] in BASELINE_ATTRS for q in ci.mro):
+        return None
+    known = set()
+    for q in ci.mro:
+        known |= set(BASELINE_ATTRS.get(q.rsplit(".", 1)[-1], ()))
+    tgt = ev.data.get("target")
+    while isinstance(tgt, ast.Subscript):
+        tgt = tgt.value
+    if isinstance(tgt, ast.Attribute) and isinstance(tgt.value, ast.Name) and ev.fi.params and tgt.value.id == ev.fi.params[0] \
+            and tgt.attr.startswith("_") and not tgt.attr.startswith("__") and tgt.attr not in known:
+        from ..unbundle import SEP
+
+        if SEP in tgt.attr.lstrip("_"):
+            return None  # a field of a scalar-replaced state record (2.1a): the tracking state itself, not notes of a query
+        return tgt.attr
+    return None
+
+
 def _accepted(p):
     """Index of the event at which Dispatcher.dispatch returned normally on
     this path (the request was accepted), or None."""
@@ -101,6 +124,7 @@ def check_entry(ctx, rule_w, rule_n, entry, recv, eng, label, stop_at_accept=Fal
     n_raise = 0
     n_after = 0
     bad = False
+    refusals = []
     for p in paths:
         if p.outcome != "raise":
             continue
@@ -113,6 +137,8 @@ def check_entry(ctx, rule_w, rule_n, entry, recv, eng, label, stop_at_accept=Fal
         first_write = None
         for ev in p.events:
             sw = state_write(ev)
+            if sw is not None and first_write is None and is_memo_fill(ctx, ev):
+                sw = None  # a correctly kept memo filled by a query: nothing a caller can observe
             if sw is not None and first_write is None:
                 first_write = (ev, sw)
             if is_notify(ctx, ev) and ev.frame.fi.cls is not None:
@@ -126,6 +152,20 @@ def check_entry(ctx, rule_w, rule_n, entry, recv, eng, label, stop_at_accept=Fal
                 break
         if first_write is not None:
             ev, (root, chain) = first_write
+            tgt_ = ev.data.get("target")
+            new_ = _unknown_private(ctx, ev, chain)
+            # (only where the store sits in a function that answers something - a query keeping notes; a keyed
+            # store in an update step that returns nothing is the tracking state itself, however it is bundled)
+            answers_ = any(isinstance(x, ast.Return) and x.value is not None and not (isinstance(x.value, ast.Constant) and x.value.value is None)
+                           for x in own_nodes(ev.fi.node))
+            if new_ and answers_ and isinstance(tgt_, ast.Subscript) and ev.data.get("op") != "mutcall":
+                # a keyed store into a table the pinned class does not have (`self._start_times[key] = t`, a
+                # memo filled by a query): whether anything observable depends on it is not decided
+                refusals.append(
+                    f"{ev.loc}: {label}: `{ev.data.get('text')}` fills bookkeeping the pinned tree does not have (self.{new_}) before "
+                    "the request is rejected; whether that leaves an observable trace is not decided by this analysis"
+                )
+                continue
             bad = True
             rz = p.events[-1]
             chk.violation(
@@ -158,6 +198,8 @@ def check_entry(ctx, rule_w, rule_n, entry, recv, eng, label, stop_at_accept=Fal
                             f"{ev.loc}: call to {t.qualname} after the first state write may raise "
                             "but lies beyond the inlining depth"
                         )
+    if refusals and not bad:
+        raise AnalysisError(refusals[0])
     if not bad:
         chk.ok(rule_w, entry.qualname, entry.loc(), f"{len(paths)} paths, {n_raise} raising, none writes before raising")
         chk.ok(rule_n, entry.qualname, entry.loc(), f"{n_raise} raising paths notify nobody")
@@ -234,6 +276,28 @@ def run(ctx):
     if has_raise_under(paths, readiness, "readiness", dispatch):
         chk.ok("R09.d", dispatch.qualname, dispatch.loc(), "raises when the operation is not the next of its job")
     else:
+        # a guard that asks bookkeeping the pinned class does not have (a set of ready operation ids kept up
+        # to date by the update path): whether that bookkeeping says what the index comparison says is not
+        # decided here
+        import re as _re
+        from ..baseline_api import BASELINE_ATTRS
+
+        known = set()
+        for q in disp.mro:
+            known |= set(BASELINE_ATTRS.get(q.rsplit(".", 1)[-1], ()))
+        for p in paths:
+            if p.outcome != "raise":
+                continue
+            for ev in p.events:
+                if ev.kind != "branch":
+                    continue
+                for a in _re.findall(r"(?<![A-Za-z0-9_.])self\.(_[A-Za-z0-9_]+)", ctx.norm.xtext(ev.fi, ev.node)):
+                    if not a.startswith("__") and a not in known:
+                        raise AnalysisError(
+                            f"{ev.loc}: dispatch raises under `{ctx.norm.xtext(ev.fi, ev.node)[:80]}`, a test of bookkeeping the pinned "
+                            f"tree does not have (self.{a}); whether it rejects exactly the operations that are not the next one "
+                            "of their job is not decided by this analysis"
+                        )
         chk.violation(
             "R09.d", dispatch, None,
             "no path of dispatch raises under a failing readiness test: an operation that is not the "
